@@ -1125,11 +1125,18 @@ func opValueStateVarJournal(ctx context.Context, pc *uint64, interpreter *EVMInt
 }
 
 func loadDataFromMem(memPtr *uint256.Int, mem *Memory) ([]byte, uint64, error) {
-	offset := int64(memPtr.Uint64())
-	dataLen := new(uint256.Int).SetBytes(mem.GetCopy(offset, 32))
-	if !memPtr.IsUint64() {
+	// the journal instructions do not expand memory: the length word and the data
+	// it announces have to lie inside the memory the frame has already allocated
+	memLen := uint64(mem.Len())
+	ptr, overflow := memPtr.Uint64WithOverflow()
+	if overflow || ptr > memLen || memLen-ptr < 32 {
+		return nil, 0, errors.New("mem data pointer out of range")
+	}
+
+	dataLen, overflow := new(uint256.Int).SetBytes(mem.GetPtr(int64(ptr), 32)).Uint64WithOverflow()
+	if overflow || dataLen > memLen-ptr-32 {
 		return nil, 0, errors.New("mem data too long")
 	}
 
-	return mem.GetCopy(offset+32, int64(dataLen.Uint64())), dataLen.Uint64(), nil
+	return mem.GetCopy(int64(ptr+32), int64(dataLen)), dataLen, nil
 }
